@@ -381,7 +381,7 @@ func (m *Model) runCheck(prop, tier string, keep bool, timeout int) int {
 
 func isSafetyKind(k string) bool {
 	switch k {
-	case "nil", "idx", "slice", "div", "assert", "panic", "mapnil", "makeneg", "boxnil", "repeatneg", "fmtconst", "makecap":
+	case "nil", "idx", "slice", "div", "assert", "panic", "mapnil", "makeneg", "boxnil", "repeatneg", "fmtconst", "makecap", "mustcompile":
 		return true
 	}
 	return false
